@@ -1346,4 +1346,4 @@ MANIFEST = {
             "a read-only base writeable).",
 }
 
-MANIFEST_ADDENDUM = 'Oracle addition: flags are observed while the exception of a failing statement is still referenced, and again after it is dropped. Round 5: tensors that are views of other tensors in the histories (in-place updates through them); in a history without backward()/clear_graph() a lock that survives until a cyclic-GC pass is a violation.'
+MANIFEST_ADDENDUM = 'Oracle addition: flags are observed while the exception of a failing statement is still referenced, and again after it is dropped. Round 5: tensors that are views of other tensors in the histories (in-place updates through them); in a history without backward()/clear_graph() a lock that survives until a cyclic-GC pass is a violation. Round 7: pinned histories in which the out= target is a view of an array that another live graph holds (released first) or of one of the operation`s own operands.'
